@@ -56,7 +56,7 @@ def is_repo_function(f):
     code = getattr(f, "__code__", None)
     if not isinstance(f, types.FunctionType) or code is None:
         return False
-    return is_repo_file(code.co_filename) or is_generated_repo_function(f)
+    return is_repo_file(code.co_filename) or is_generated_repo_function(f) or f in REGISTERED_SOURCES
 
 
 def _code_key(node):
@@ -218,6 +218,9 @@ def find_generated(fn):
                 for node in ast.walk(gi.tree):
                     if isinstance(node, ast.FunctionDef) and node.name == fn.__code__.co_name and node.lineno == cand.co_firstlineno:
                         return gi, node
+                lambdas = [node for node in ast.walk(gi.tree) if isinstance(node, ast.Lambda)]
+                if fn.__code__.co_name == "<lambda>" and len(lambdas) == 1:
+                    return gi, lambdas[0]
     raise LookupError(f"no exec()-ed source in {mod.__name__} compiles to the running code of {fn.__qualname__}")
 
 
@@ -227,3 +230,32 @@ def is_generated_repo_function(f):
         return False
     mod = sys.modules.get(getattr(f, "__module__", None) or "")
     return mod is not None and is_repo_file(getattr(mod, "__file__", "") or "")
+
+
+REGISTERED_SOURCES = {}
+
+
+def register_generated(fn, src, label):
+    """Associate a function produced by exec(src) at run time (e.g. makers.make_function) with its source text;
+    accepted only if compiling src yields exactly the bytecode of fn."""
+    import textwrap
+    text = textwrap.dedent(src)
+    top = compile(text, "<string>", "exec")
+    want = _code_signature(fn.__code__)
+    stack = [top]
+    while stack:
+        c = stack.pop()
+        for const in c.co_consts:
+            if isinstance(const, types.CodeType):
+                if _code_signature(const) == want:
+                    gi = GeneratedInfo(f"{label}:{fn.__code__.co_name}", text)
+                    for node in ast.walk(gi.tree):
+                        if isinstance(node, ast.FunctionDef) and node.name == fn.__code__.co_name:
+                            REGISTERED_SOURCES[fn] = (gi, node)
+                            return
+                stack.append(const)
+    raise LookupError(f"source text does not compile to the running code of {fn}")
+
+
+def is_registered(f):
+    return f in REGISTERED_SOURCES
